@@ -57,8 +57,8 @@ import (
 // WeakHash configures the injected ID hasher of the data module: the hash of an
 // IRI is looked up in Table (IRI -> bytes); IRIs outside the table hash to Default.
 type WeakHash struct {
-	MinLen  int               `json:"minlen"`
-	HashLen int               `json:"hashlen"`
+	MinLen  int              `json:"minlen"`
+	HashLen int              `json:"hashlen"`
 	Table   map[string][]int `json:"table"`
 }
 
@@ -260,7 +260,7 @@ func must(err error) {
 
 func (a *App) initChainer(ctx sdk.Context, _ abci.RequestInitChain) abci.ResponseInitChain {
 	g := a.pendingGenesis
-	a.ak.SetParams(ctx, authtypes.DefaultParams())   //nolint:errcheck
+	a.ak.SetParams(ctx, authtypes.DefaultParams()) //nolint:errcheck
 	must(a.bk.SetParams(ctx, banktypes.DefaultParams()))
 	// make sure the module accounts exist
 	for _, n := range []string{minttypes.ModuleName, ecocredit.ModuleName, basket.BasketSubModuleName, marketplace.FeePoolName} {
